@@ -13,6 +13,8 @@
 (* tree: the real search returned exactly Answer(parsed).                                      *)
 EXTENDS Integers, Sequences, FiniteSets, TLC, Json
 
+CONSTANT RegexField     \* reading of the regex: row of the field table, see QueryLangSem
+
 Trace == ndJsonDeserialize("trace.ndjson")
 
 FoldOrbits == Trace[1].orbits
@@ -24,7 +26,7 @@ OrbitTab == [c \in {o[1] : o \in OrbSet} |->
 UpperSet == {Trace[1].upper[k] : k \in 1..Len(Trace[1].upper)}
 
 S == INSTANCE QuerySem WITH Canon <- CanonTab, Orbit <- OrbitTab
-QL == INSTANCE QueryLangSem WITH Upper <- UpperSet
+QL == INSTANCE QueryLangSem WITH Upper <- UpperSet, RegexField <- RegexField
 
 VARIABLES done
 vars == <<done>>
